@@ -1,5 +1,5 @@
 (** C19 — file discovery honours extensions and the ignore file. Pinned statements only. *)
-From Sq Require Import Base.Bytes Disc.Model Disc.Proofs.
+From Sq Require Import Base.Bytes Disc.Model Disc.Proofs Disc.Nav Disc.NavProofs.
 
 (** The files handed to the linter (and to fix's write loop) are exactly: the files below a directory
     argument whose lower-cased name ends in a configured extension, plus explicitly named files, minus those
@@ -99,3 +99,56 @@ Theorem C19_legacy_refuted_ext_case :
                       linted t exts [] args = Some [(Rel, [n_aSQL])].
 Proof. exact legacy_refuted_ext_case. Qed.
 Print Assumptions C19_legacy_refuted_ext_case.
+
+(** Path arguments as they are written ("..", ".", absolute) from a working directory nested in the tree.
+    [helpers::normalize], which paths_from_path applies to every discovered file, does not change the
+    location a path denotes, whatever the working directory. *)
+Theorem C19_normalize_sound : forall base p, resolve base (normalize p) = resolve base p.
+Proof. exact normalize_sound. Qed.
+Print Assumptions C19_normalize_sound.
+
+(** Its result is ".", or ".."s (none in an absolute path) followed by names. *)
+Theorem C19_normalize_normal_form : forall p,
+  r_abs (normalize p) = r_abs p /\
+  (r_comps (normalize p) = [CCur] \/
+   exists k ns, r_comps (normalize p) = repeat CPar k ++ map CName ns /\ (r_abs p = true -> k = 0%nat)).
+Proof. exact normalize_normal_form. Qed.
+Print Assumptions C19_normalize_normal_form.
+
+(** The variant in which a second leading ".." cancels the first (seeded change C19-6) is not sound. *)
+Theorem C19_normalize_cancel_refuted : exists base p, resolve base (normalize_cancel p) <> resolve base p.
+Proof. exact normalize_cancel_refuted. Qed.
+Print Assumptions C19_normalize_cancel_refuted.
+
+(** Every file is reported, read and (in fix mode) written under a name that denotes the file discovered
+    below the argument, and that file lies in the tree. *)
+Theorem C19_nav_spelling : forall R w t exts pats args outs,
+  linted_nav R w t exts pats args = Some outs ->
+  forall o, In o outs -> resolve (R ++ w) (fst o) = snd o /\ exists q, snd o = R ++ q.
+Proof. exact nav_spelling. Qed.
+Print Assumptions C19_nav_spelling.
+
+(** The set characterisation for written arguments from the working directory R ++ w (the ignore file lies
+    in the working directory and does not match files outside it). *)
+Theorem C19_nav_set : forall R w t exts pats args outs,
+  linted_nav R w t exts pats args = Some outs ->
+  forall q, In (R ++ q) (map snd outs) <->
+    ((exists a loc, In a (effective_nav R w args) /\ under R (resolve (R ++ w) a) = Some loc /\
+        ((lookup t loc = Some false /\ q = loc) \/
+         (lookup t loc = Some true /\ is_prefix loc q = true /\
+          In {| e_path := q; e_dir := false |} t /\ has_ext exts (last q []) = true)))
+     /\ ignored_nav R w pats (R ++ q) = false).
+Proof. exact nav_set. Qed.
+Print Assumptions C19_nav_set.
+
+Theorem C19_nav_once : forall R w t exts pats args outs,
+  linted_nav R w t exts pats args = Some outs -> NoDup (map snd outs).
+Proof. exact nav_once. Qed.
+Print Assumptions C19_nav_once.
+
+Theorem C19_nav_total : forall R w t exts pats args,
+  (forall a, In a (effective_nav R w args) ->
+     exists loc, under R (resolve (R ++ w) a) = Some loc /\ lookup t loc <> None) ->
+  exists outs, linted_nav R w t exts pats args = Some outs.
+Proof. exact nav_total. Qed.
+Print Assumptions C19_nav_total.
